@@ -26,6 +26,7 @@ Bounded progress (only while no harness server has closed a connection and no do
 """
 import copy
 import json
+from collections import deque
 import random
 import select
 import socket
@@ -71,10 +72,11 @@ REQUIRE = {"requests_arrived": 800, "arrival_order_checks": 800, "rx_events_chec
            "rounds_with_response_pending_and_more_requests_queued": 200, "healthy_progress_checks": 100,
            "wire_payload_checks": 500, "wire_payload_checks_after_earlier_data_or_fargs": 100, "entry_request_echo_checks": 400,
            "downgrade_refused_location_not_spelt_http": 8,
+           "cases_with_caller_owned_queues": 100, "caller_owned_queue_entries_checked": 200,
            "early_answered_uploads_with_body_still_outstanding": 4, "upload_body_bytes_checked_after_early_response": 4000000, "upload_cases_all_requests_answered": 4,
            "reconnect_progress_checks": 8, "requests_queued_late_while_cut-off-before-retry-timer-expired": 5,
            "requests_queued_late_while_connected": 2, "requests_queued_late_while_reconnecting": 2}
-_EXH = ("queues of 1-3 requests x {immediate, delayed, dribbled} x {no redirect, 302 same server, 307 other port} (each request of the queue "
+_EXH = ("queues of 1-3 requests x {immediate, delayed, dribbled} x {no redirect, 302 same server, 307 other port} x {client-made queues, caller-owned empty deques passed to the constructor} (each request of the queue "
         "uses the same behaviour); every order of {nothing, raw body, data, fargs} over 2 and 3 consecutive requests x {all POST, POST/DELETE/PUT "
         "with a GET in between}; https->sink with each of 7 Location spellings x {first hop, after one https redirect}; plus reconnect-after-`Connection: close` x next response dribbled {1,2,3,16,all} bytes/round x {GET, POST} x {final length/chunked/EOF-delimited, 302 chunked}")
 EXHAUSTIVE = {"quick": _EXH, "thorough": _EXH}
@@ -162,10 +164,11 @@ def cases(tier, seed, shard, nshards):
     for n in (1, 2, 3):
         for timing in ("immediate", "delayed", "dribbled"):
             for redirect in ("none", "same", "other"):
-                if i % nshards == shard:
-                    yield {"kind": "enum", "tls": False, "reconnectable": False,
-                           "reqs": [fixed_req(f"E{i}q{j}", timing, redirect) for j in range(n)]}
-                i += 1
+                for own in (False, True):
+                    if i % nshards == shard:
+                        yield {"kind": "enum", "tls": False, "reconnectable": False, "own_queues": own,
+                               "reqs": [fixed_req(f"E{i}q{j}", timing, redirect) for j in range(n)]}
+                    i += 1
     # directed family: server closes after a `Connection: close` response, a reconnectable client reconnects and the
     # next response arrives d bytes per round (the receive buffer runs empty between reads on the NEW connection)
     for d in (1, 2, 3, 16, 0):
@@ -275,7 +278,7 @@ def cases(tier, seed, shard, nshards):
             yield {"kind": "closeeach", "tls": False, "reconnectable": True, "tymeout": rng.choice([0.5, 1.0, 2.0]),
                    "tock": rng.choice([0.125, 0.0625, 0.03125]), "reqs": reqs}
             continue
-        yield {"kind": kind, "tls": tls, "reconnectable": rng.random() < 0.3, "reqs": reqs}
+        yield {"kind": kind, "tls": tls, "reconnectable": rng.random() < 0.3, "own_queues": rng.random() < 0.3, "reqs": reqs}
 
 
 # --------------------------------------------------------------------------- scripted raw server
@@ -297,6 +300,8 @@ class World:
         self.server_closed = False    # a harness server closed a connection (after that: safety only)
         self.ports = {}
         self.client = None
+        self.app_requests = None
+        self.app_responses = None
         self.accepts = 0
         self.issued = {}              # (id, hop) -> Location value the scripted server actually sent
         self.entry_ids = []           # request ids of the entries of client.responses seen so far
@@ -314,7 +319,7 @@ class World:
         for finished which the server is still writing; otherwise it is plain pipelining."""
         cl = self.client
         if cl is not None:
-            for e in list(cl.responses):
+            for e in list(self.app_responses):
                 hdrs = (e.get("request") or {}).get("headers") or {}
                 if hdrs.get("X-Id") == oid:
                     return "client-ended-previous-response-early"
@@ -858,6 +863,11 @@ def run_case(case, ctx):
             world.ports["C"] = c.port
         tymist = tyming.Tymist(tyme=0.0, tock=case.get("tock", 0.125))
         kwa = dict(bufsize=131072, reconnectable=case["reconnectable"], tymth=tymist.tymen(), tymeout=case.get("tymeout", 0.5))
+        own = None
+        if case.get("own_queues"):
+            # the application hands its own (still empty) queues to the constructor, as the docstrings describe
+            own = {"requests": deque(), "responses": deque(), "redirects": list(), "events": deque()}
+            kwa.update(own)
         if case.get("client_bs"):
             kwa["bs"] = case["client_bs"]     # tcp.Client buffer size: pins SO_SNDBUF (no autotuning up to tcp_wmem[2])
         if case["tls"]:
@@ -869,6 +879,12 @@ def run_case(case, ctx):
             client = clienting.Client(hostname="127.0.0.1", port=a.port, **kwa)
         client.reopen()
         world.client = client
+        world.app_requests = own["requests"] if own else client.requests
+        world.app_responses = own["responses"] if own else client.responses
+        if own:
+            ctx.count("cases_with_caller_owned_queues")
+            if client.requests is not own["requests"] or client.responses is not own["responses"]:
+                ctx.count("caller_owned_queue_replaced_by_client_observed")
         _drive(case, ctx, world, servers, client, tymist)
     finally:
         if client is not None:
@@ -883,9 +899,11 @@ def run_case(case, ctx):
 def _drive(case, ctx, w, servers, client, tymist):
     reqs = case["reqs"]
     ids = [r["id"] for r in reqs]
+    # the queues the APPLICATION holds: its own deques when it passed them to the constructor, else the client's
+    rq, rs = w.app_requests, w.app_responses
     nqueued = 0
     while nqueued < len(reqs) and "queue_after" not in reqs[nqueued]:
-        client.requests.append(request_dict(reqs[nqueued]))
+        rq.append(request_dict(reqs[nqueued]))
         nqueued += 1
     queued_how = {r["id"]: "upfront" for r in reqs[:nqueued]}
     entry_round = {}           # queue index -> round in which its entry was first seen
@@ -895,7 +913,7 @@ def _drive(case, ctx, w, servers, client, tymist):
     closing = any(h["connclose"] or h["close_mid"] is not None or h["framing"] == "eof" for r in reqs for h in r["hops"])
     budget = rounds_budget(case)
     seen_socks = set()
-    seen_entries = []          # identities of the entries of client.responses seen so far
+    seen_entries = []          # identities of the entries of rs seen so far
     refused = 0
     escaped = None
     done_rounds = 0
@@ -903,7 +921,7 @@ def _drive(case, ctx, w, servers, client, tymist):
     ctx.count("requests_queued", len(reqs))
 
     def check_responses():
-        resp = list(client.responses)
+        resp = list(rs)
         # S3: grows only at the right end
         if len(resp) < len(seen_entries) or any(resp[i] is not seen_entries[i] for i in range(len(seen_entries))):
             w.viol("responses-deque-not-append-only",
@@ -914,6 +932,8 @@ def _drive(case, ctx, w, servers, client, tymist):
             seen_entries.append(e)
             entry_round[i] = w.rnd
             ctx.count("responses_entries_checked")
+            if case.get("own_queues"):
+                ctx.count("caller_owned_queue_entries_checked")
             w.ev("response_entry", i, e.get("status"), bool(e.get("errored")))
             rq = e.get("request") or {}
             hdrs = rq.get("headers") or {}
@@ -1013,7 +1033,7 @@ def _drive(case, ctx, w, servers, client, tymist):
         w.rnd = rnd
         if rnd > budget:
             # a missing-progress verdict gets a few more rounds with patience first
-            if extra_phase >= 10 or len(client.responses) >= len(reqs) or w.server_closed or downgrade or escaped:
+            if extra_phase >= 10 or len(rs) >= len(reqs) or w.server_closed or downgrade or escaped:
                 break
             extra_phase += 1
             socks = [c.sock for s in servers for c in s.conns if not c.closed]
@@ -1024,7 +1044,7 @@ def _drive(case, ctx, w, servers, client, tymist):
                 pass
         for s in servers:
             s.step()
-        if client.waited and client.requests:
+        if client.waited and rq:
             ctx.count("rounds_with_response_pending_and_more_requests_queued")
         try:
             client.service()
@@ -1072,9 +1092,9 @@ def _drive(case, ctx, w, servers, client, tymist):
                 w.ev("queued", r["id"], how)
             else:
                 queued_how[r["id"]] = "together-with-previous"
-            client.requests.append(request_dict(r))
+            rq.append(request_dict(r))
             nqueued += 1
-        if len(client.responses) >= len(reqs) and not client.requests:
+        if len(rs) >= len(reqs) and not rq:
             done_rounds += 1
             if done_rounds > 3:
                 break
@@ -1088,7 +1108,7 @@ def _drive(case, ctx, w, servers, client, tymist):
             s.step()
     check_responses()
 
-    nresp = len(client.responses)
+    nresp = len(rs)
     healthy = not w.server_closed and not downgrade and escaped is None and not closing and not w.violated
     if closeeach and escaped is None and not w.violated:
         # the server is a healthy HTTP server that closes after each response and accepts again: a reconnectable client
@@ -1101,22 +1121,26 @@ def _drive(case, ctx, w, servers, client, tymist):
             w.viol("no-progress:reconnect:request-queued-" + queued_how.get(stuck["id"], "never"),
                    f"{nresp} of {len(reqs)} responses after {rnd} rounds (budget {budget}, retry timer {cn.tymeout}, tock {case.get('tock')}); "
                    f"request {stuck['id']} was queued [{queued_how.get(stuck['id'])}] and {'never arrived' if not any(k[0] == stuck['id'] for k in w.arrived) else 'arrived'} "
-                   f"at the server, which closes after every response and accepts again; waited={client.waited} queued={len(client.requests)} "
+                   f"at the server, which closes after every response and accepts again; waited={client.waited} queued={len(rq)} "
                    f"connected={cn.connected} cutoff={cn.cutoff} txbs={len(cn.txbs)} tyme={tymist.tyme}")
         else:
-            errs = [i for i, e in enumerate(client.responses) if e.get("errored")]
+            errs = [i for i, e in enumerate(rs) if e.get("errored")]
             if errs:
                 w.viol("errored-response-after-reconnect",
-                       f"entries {errs} are errored ({client.responses[errs[0]].get('error')!r}) although every response was written completely before the close")
+                       f"entries {errs} are errored ({rs[errs[0]].get('error')!r}) although every response was written completely before the close")
     if healthy:
         ctx.count("healthy_progress_checks")
         if nresp != len(reqs):
-            state = (f"waited={client.waited} queued={len(client.requests)} connected={client.connector.connected} "
+            state = (f"waited={client.waited} queued={len(rq)} connected={client.connector.connected} "
                      f"cutoff={client.connector.cutoff} outstanding={w.outstanding} arrived={len(w.arrived)}/{len(w.expected)} "
                      f"respondent.ended={client.respondent.ended} redirects_pending={len(client.redirects)}")
             stuck = reqs[min(nresp, len(reqs) - 1)]
             hops_arrived = [k[1] for k in w.arrived if k[0] == stuck["id"]]
             qual = f"{stuck['method']}:" + ("after-redirect" if hops_arrived and max(hops_arrived) > 0 else "direct")
+            if case.get("own_queues") and not w.arrived:
+                qual = "caller-owned-queues:nothing-was-ever-sent"
+            elif case.get("own_queues") and not nresp and len(w.arrived) > 0 and w.client is not None and len(w.client.responses) > 0:
+                qual = "caller-owned-queues:entries-went-to-a-private-queue"
             if w.outstanding is not None:
                 raise RuntimeError(f"scripted server did not finish its own response within {rnd} rounds: {state}")
             # every response the servers owed is completely written and the connection is open, yet the client
@@ -1129,7 +1153,7 @@ def _drive(case, ctx, w, servers, client, tymist):
         if nresp == len(reqs) and not w.violated:
             ctx.count("upload_cases_all_requests_answered")
     # (counted, not judged: entry['body'] is the respondent's own bytearray, emptied in place by the next parseBody)
-    for i, e in enumerate(list(client.responses)):
+    for i, e in enumerate(list(rs)):
         req = w.script.get(w.entry_ids[i]) if i < len(w.entry_ids) else None
         if req is not None and not e.get("errored") and e.get("status") == req["hops"][-1]["status"] \
                 and req["method"] != "HEAD" and req["hops"][-1]["body"] and not w.server_closed:
